@@ -28,6 +28,8 @@ VIEWS = {
     "core::slice::<impl [T]>::as_mut_ptr",
     "core::array::<impl [T; N]>::as_slice",
     "core::array::<impl [T; N]>::as_mut_slice",
+    "generic_array::GenericArray::<T, N>::as_slice",
+    "generic_array::GenericArray::<T, N>::as_mut_slice",
     "alloc::vec::Vec::<T, A>::as_slice",
     "alloc::vec::Vec::<T, A>::as_mut_slice",
     "zerocopy::IntoBytes::as_bytes",
@@ -809,7 +811,17 @@ class Interp:
                 return
             if k == "switch":
                 d = self.operand(ctx, path, t["discr"])
+                # `if r.is_err()` / `if r.is_ok()` is a branch on r's discriminant (Ok = 0, Err = 1), spelled as a bool
+                remap = None
+                if isinstance(d, tuple) and d and d[0] == "call" and len(d[2]) == 1 and re.search(r"(^|::)Result::<.*>::is_(err|ok)$", d[1]):
+                    is_err_ = d[1].endswith("is_err")
+                    recv_ = d[2][0]
+                    self.discr_kind.setdefault(recv_, "result")
+                    d = ("discr", recv_)
+                    remap = (lambda b: b) if is_err_ else (lambda b: 1 - b)
                 known = self.resolve_switch(path, d)
+                if known is not None and remap is not None:
+                    known = remap(known) if known in (0, 1) else None
                 arms = [(v, tgt) for v, tgt in t["arms"]]
                 if known is not None:
                     tgt = next((tg for v, tg in arms if v == known), t["otherwise"])
@@ -842,7 +854,12 @@ class Interp:
                             two = kind in ("branch", "result", "option") or tt in self.two_variant_discr
                         if two:
                             v2 = 1 - arms[0][0]
-                    self.assume_switch(p2, d, v2, [a for a, _ in arms], (fn["key"], bi), blk["sp"])
+                    if remap is not None:
+                        if v2 == "otherwise" and len(arms) == 1 and arms[0][0] in (0, 1):
+                            v2 = 1 - arms[0][0]
+                        if v2 in (0, 1):
+                            v2 = remap(v2)
+                    self.assume_switch(p2, d, v2, [a for a, _ in arms] if remap is None else [0, 1], (fn["key"], bi), blk["sp"])
                     self._walk(ctx, tgt, p2, visited, out)
                 return
             if k == "call":
